@@ -58,8 +58,9 @@ func (d *dependencyAwarePostProcessors) PostProcessProperties(properties []*comp
 		}
 		//aware by name
 		if prop.TagVal != "" && (prop.Type.Kind() == reflect.Ptr || prop.Type.Kind() == reflect.Interface) {
-			dm := d.Registry.GetMetaByName(prop.TagVal)
-			prop.Injects = append(prop.Injects, dm)
+			if dm := d.Registry.GetMetaByName(prop.TagVal); dm != nil {
+				prop.Injects = append(prop.Injects, dm)
+			}
 		}
 	}
 	return nil, nil
